@@ -1,6 +1,6 @@
 (* Monomorphic instances run by the correspondence driver (extracted) and by the in-kernel cross-check (vm_compute):
    labels are integer codes. Definitions only. *)
-From BG Require Import Base DirectedModel DirectedSpec UndirectedModel UndirectedSpec MultiModel WeightedModel MultiSpec.
+From BG Require Import Base DirectedModel DirectedSpec UndirectedModel UndirectedSpec MultiModel WeightedModel MultiSpec ForcedSpec.
 Local Open Scope Z_scope.
 (* the alphabet asked about in hasEdge(i,j,l): 0..3 for labelled graphs, the single NoLabel value otherwise *)
 Definition alpha (hs : bool) : list Z := if hs then [0; 1; 2; 3] else [0].
@@ -28,15 +28,25 @@ Definition uw_query (m : mgraph) (v : nat) : list Z :=
 Definition d_trace (hs : bool) (v : variant) (n : nat) (ops : list (@dop Z + nat)) : list (list (list Z)) :=
   gtrace (step hs v) (observe Z.eqb 0 (fun z => z) (alpha hs) hs v) (d_query hs) (init n) ops.
 Definition d_spec_trace (hs : bool) (n : nat) (ops : list (@dop Z + nat)) : list (option (list (list Z))) :=
-  gspec_trace rejected_code spec_step (sobserve Z.eqb 0 hs (fun z => z) (alpha hs)) sn 8 (s_init n) ops.
+  gspec_trace (fun _ => true) rejected_code spec_step (sobserve Z.eqb 0 hs (fun z => z) (alpha hs)) sn 8 (s_init n) ops.
 Definition u_trace_z (hs : bool) (v : variant) (n : nat) (ops : list (@uop Z + nat)) : list (list (list Z)) :=
   gtrace (ustep hs v) (u_observe Z.eqb 0 (fun z => z) (alpha hs) hs v) (u_query hs) (init n) ops.
 Definition u_spec_trace (hs : bool) (n : nat) (ops : list (@uop Z + nat)) : list (option (list (list Z))) :=
-  gspec_trace u_rejected_code uspec_step (sobserve_u Z.eqb 0 hs (fun z => z) (alpha hs)) sn 8 (s_init n) ops.
+  gspec_trace (fun _ => true) u_rejected_code uspec_step (sobserve_u Z.eqb 0 hs (fun z => z) (alpha hs)) sn 8 (s_init n) ops.
 (* multigraphs and weighted graphs; the two repaired behaviours that have no variant flag are passed explicitly *)
 Definition dm_trace_z (v : variant) (n : nat) (ops : list (mop + nat)) := gtrace (dm_step v) (dm_observe v) dm_query (dm_init n) ops.
 Definition um_trace_z (v : variant) (set0 : bool) (n : nat) (ops : list (mop + nat)) := gtrace (um_step v set0) (um_observe v) um_query (dm_init n) ops.
 Definition dw_trace_z (v : variant) (n : nat) (ops : list (wop + nat)) := gtrace (dw_step v) (dw_observe v) dw_query (dm_init n) ops.
 Definition uw_trace_z (v : variant) (canon : bool) (n : nat) (ops : list (wop + nat)) := gtrace (uw_step v canon) (uw_observe v) uw_query (dm_init n) ops.
-Definition m_spec_trace (und : bool) (n : nat) (ops : list (mop + nat)) := gspec_trace m_rejected_code (mspec_step und) (sobserve_m und) sn 7 (s_init n) ops.
-Definition w_spec_trace (und : bool) (n : nat) (ops : list (wop + nat)) := gspec_trace w_rejected_code (wspec_step und) (sobserve_w und) sn 7 (s_init n) ops.
+Definition m_spec_trace (und : bool) (n : nat) (ops : list (mop + nat)) := gspec_trace (fun _ => true) m_rejected_code (mspec_step und) (sobserve_m und) sn 7 (s_init n) ops.
+Definition w_spec_trace (und : bool) (n : nat) (ops : list (wop + nat)) := gspec_trace (fun _ => true) w_rejected_code (wspec_step und) (sobserve_w und) sn 7 (s_init n) ops.
+(* spec oracles that also follow forced insertions (C16) *)
+Definition d_fspec_trace (hs : bool) (n : nat) (ops : list (@dop Z + nat)) :=
+  gspec_trace (fun _ => true) (frej_d false) (fstep_d false) (fobserve_d Z.eqb 0 hs (fun z => z) (alpha hs) false) sn 8 (s_init n) ops.
+Definition u_fspec_trace (hs : bool) (n : nat) (ops : list (@uop Z + nat)) :=
+  gspec_trace (fun _ => true) (frej_u true) (fstep_u true) (fobserve_u Z.eqb 0 hs (fun z => z) (alpha hs) true) sn 8 (s_init n) ops.
+Definition fs_init (n : nat) : fstate := {| fa := s_init n; fdup := []; ftaint := false |}.
+Definition m_fspec_trace (und : bool) (n : nat) (ops : list (mop + nat)) :=
+  gspec_trace clean (fun s o => match m_rejected_code (fa s) o with None => Some 0 | x => x end) (fm_step und) (fun s => sobserve_m und (fa s)) (fun s => sn (fa s)) 7 (fs_init n) ops.
+Definition w_fspec_trace (und : bool) (n : nat) (ops : list (wop + nat)) :=
+  gspec_trace clean (fun s o => match w_rejected_code (fa s) o with None => Some 0 | x => x end) (fw_step und) (fun s => sobserve_w und (fa s)) (fun s => sn (fa s)) 7 (fs_init n) ops.
